@@ -7,7 +7,9 @@ MARK = b"\xffENCODER-MUST-FAIL"
 BADKEY = "WRITE-MUST-FAIL"
 KINDS = ["read_all", "write1", "write2", "fail_body", "fail_encoder", "fail_flush", "fail_end_write", "read_fail_body", "fail_end_read", "fail_begin_write", "fail_begin_read",
          # the body is left by an exception that is NOT an Exception subclass (Ctrl-C in a notebook, sys.exit() caught higher up)
-         "fail_body_interrupt", "fail_body_sysexit", "read_fail_interrupt"]
+         "fail_body_interrupt", "fail_body_sysexit", "read_fail_interrupt",
+         # a writing session that first READS a record that is already there (deriving a new record from an old one), then stores
+         "read_write1"]
 TIMEOUT = 5.0
 
 
@@ -94,7 +96,12 @@ def run_session(c, kind: str, keys: list[str], vals: list[bytes]) -> dict:
                 be.end_write = end_write
                 restore.append(("end_write", real))
             with c.writing(timeout=TIMEOUT):
-                if kind == "write1":
+                if kind == "read_write1":
+                    ks_ = sorted(c.keys())
+                    if ks_:
+                        c[ks_[0]]
+                    c[keys[0]] = vals[0]; res["put_ok"].append(keys[0])
+                elif kind == "write1":
                     c[keys[0]] = vals[0]; res["put_ok"].append(keys[0])
                 elif kind in ("write2", "fail_end_write"):
                     c[keys[0]] = vals[0]; res["put_ok"].append(keys[0])
